@@ -286,6 +286,29 @@ def sortDirs (dirs : List (String × Str)) : List (String × Str) := sortBy (fun
 def stdoutLines (roots : List String) (dirs : List (String × Str)) : List Str :=
   ((sortDirs dirs).filter (fun e => roots.contains e.1)).map (·.2)
 
+/-! ### which cargo workspace an invocation directory belongs to (`find_cargo_workspace_root_dir`) -/
+
+/-- `inv` is the directory `d` or lies below it -/
+def isBelow (d inv : Str) : Bool := inv == d || (d ++ ['/']).isPrefixOf inv
+
+/-- `cargo locate-project --workspace` run in `inv` (cargo is runtime; this is the modelled rule): a crate that is its own
+cargo workspace (`standalone`: directories, relative to `ws.root`, of crates with their own `[workspace]` table, excluded from
+the outer one) is the workspace root for every directory at or below it — the innermost such crate wins —, otherwise the
+outer root is. The tool then only sees the buildpack directories below that root. -/
+def effectiveWorkspace (ws : Workspace) (standalone : List Str) (inv : Str) : Workspace :=
+  let cands := standalone.filter (fun d => !d.isEmpty && isBelow (absDir ws.root d) inv)
+  let innermost := cands.foldl (fun best d =>
+    match best with
+    | none => some d
+    | some b => if b.length < d.length then some d else some b) (none : Option Str)
+  match innermost with
+  | none => ws
+  | some d =>
+    ⟨absDir ws.root d, ws.dirs.filterMap (fun bp =>
+      if bp.dir == d then some { bp with dir := [] }
+      else if (d ++ ['/']).isPrefixOf bp.dir then some { bp with dir := bp.dir.drop (d.length + 1) }
+      else none)⟩
+
 /-! ### `execute` -/
 
 structure Plan where
